@@ -67,7 +67,9 @@ class heap(object):
         return the future checnk address
         """
         ret = self.addr
-        self.addr = (self.addr + size + self.align - 1)
+        # A zero-sized chunk still owns its address: the next chunk must not
+        # be given the same one
+        self.addr = (self.addr + max(size, 1) + self.align - 1)
         self.addr &= self.mask ^ (self.align - 1)
         return ret
 
